@@ -25,13 +25,13 @@ pub fn gen_case(seed: u64, idx: u64) -> Case {
     let mut rng = Rng::new(seed, 4, idx);
     let single_file = idx % 2 == 0;
     let k = *rng.pick(&[11usize, 15, 21, 31]);
-    let n_samples = if single_file { rng.range(2, 6) } else { rng.range(2, 8) } as usize;
-    let n_contigs = if single_file { rng.range(20, 45) } else { rng.range(1, 12) } as usize;
+    let n_samples = if single_file { rng.range(2, 4) } else { rng.range(2, 6) } as usize;
+    let n_contigs = if single_file { rng.range(18, 30) } else { rng.range(1, 6) } as usize;
     let o = GenOpts {
         n_samples,
         n_contigs,
         len_lo: 150,
-        len_hi: *rng.pick(&[600usize, 1500, 4000]),
+        len_hi: *rng.pick(&[300usize, 500, 900]),
         div_per_mille: *rng.pick(&[5u64, 20, 50]),
         iupac: rng.chance(1, 3),
         n_runs: rng.chance(1, 3),
@@ -115,10 +115,10 @@ pub fn run(ctx: &mut Ctx) -> Report {
         run_case(&ctx.workdir, ctx.seed, &mut rep, &case, "replay", 8);
         return rep;
     }
-    let n = ctx.t(16, 120);
-    let builds = ctx.t(5, 10);
+    let n = ctx.t(10, 120);
+    let builds = ctx.t(4, 10);
     let (seed, workdir) = (ctx.seed, ctx.workdir.clone());
-    crate::props::par_cases(ctx, &mut rep, n, 4, |_m, r, i| {
+    crate::props::par_cases(ctx, &mut rep, n, 5, |_m, r, i| {
         let case = gen_case(seed, i);
         run_case(&workdir, seed, r, &case, &format!("{i}"), builds);
     });
